@@ -906,7 +906,7 @@ class ConstructedPayloadDecoderBase(AbstractConstructedPayloadDecoder):
             idx = 0
 
             while True:  # loop over components
-                if len(namedTypes) <= idx:
+                if not namedTypes or not isSetType and len(namedTypes) <= idx:
                     asn1Spec = None
 
                 elif isSetType:
